@@ -140,8 +140,10 @@ func Run(c *common.Ctx) error {
 		px.Target = app.ln.Addr().String()
 		px.DBName = dbName
 		px.Addr = "localhost:0"
-		px.Passthroughs = []*regexp.Regexp{regexp.MustCompile(`^/pass/.*$`)}
-		px.AlwaysForward = []*regexp.Regexp{regexp.MustCompile(`^/fwd/.*$`)}
+		// one anchored expression and one glob-style suffix expression each (what litefs.yml users write): the
+		// expressions are matched against the path, never against the query string
+		px.Passthroughs = []*regexp.Regexp{regexp.MustCompile(`^/pass/.*$`), regexp.MustCompile(`\.png$`)}
+		px.AlwaysForward = []*regexp.Regexp{regexp.MustCompile(`^/fwd/.*$`), regexp.MustCompile(`\.rpc$`)}
 		px.PollTXIDInterval = time.Millisecond
 		px.PollTXIDTimeout = 400 * time.Millisecond
 		px.PrimaryRedirectTimeout = 150 * time.Millisecond
@@ -181,7 +183,7 @@ func Run(c *common.Ctx) error {
 	var cases []reqCase
 	for _, role := range []string{"primary", "replica", "noprimary"} {
 		for _, m := range []string{"GET", "HEAD", "POST", "PUT", "DELETE", "PATCH"} {
-			for _, path := range []string{"/app", "/pass/x", "/fwd/x", "/litefs/health"} {
+			for _, path := range []string{"/app", "/pass/x", "/fwd/x", "/litefs/health", "/app?thumb=logo.png", "/img/logo.png", "/app?call=x.rpc", "/do/x.rpc"} {
 				for _, ck := range []string{"absent", "malformed", "zero", "behind", "equal", "ahead"} {
 					for _, there := range []bool{true, false} {
 						if !there && ck != "ahead" && ck != "absent" {
@@ -247,7 +249,7 @@ func Run(c *common.Ctx) error {
 		c.Evaluations++
 		c.Distinct(fmt.Sprintf("%s:%s:%s:%s:%s:%v", rc.Role, rc.Method, rc.Path, rc.Cookie, rc.Timing, rc.DBThere))
 		rep := map[string]any{"kind": "proxy-request", "request": rc}
-		key := fmt.Sprintf("C19:%s:%s:%s:%s", rc.Role, strings.ToLower(rc.Method), strings.Trim(strings.Split(rc.Path, "/")[1], "/"), rc.Cookie)
+		key := fmt.Sprintf("C19:%s:%s:%s:%s", rc.Role, strings.ToLower(rc.Method), strings.NewReplacer("/", "_", "?", "_q_", "=", "_").Replace(strings.TrimPrefix(rc.Path, "/")), rc.Cookie)
 		if err != nil {
 			c.Violate(key+":no-response", fmt.Sprintf("proxy did not answer: %v", err), rep)
 			continue
@@ -272,9 +274,10 @@ func Run(c *common.Ctx) error {
 		}
 		posAfter := pos(n.store, "db")
 		isRead := rc.Method == "GET" || rc.Method == "HEAD"
-		pass := strings.HasPrefix(rc.Path, "/pass/")
-		fwd := strings.HasPrefix(rc.Path, "/fwd/")
-		health := rc.Method == "GET" && rc.Path == "/litefs/health"
+		pathOnly := strings.SplitN(rc.Path, "?", 2)[0]
+		pass := strings.HasPrefix(pathOnly, "/pass/") || strings.HasSuffix(pathOnly, ".png")
+		fwd := strings.HasPrefix(pathOnly, "/fwd/") || strings.HasSuffix(pathOnly, ".rpc")
+		health := rc.Method == "GET" && pathOnly == "/litefs/health"
 		// ---- the property's own predicates ----
 		if isRead && !fwd && !pass && !health && cookieTXID != 0 && rc.DBThere {
 			if forwarded && arrivedAt < cookieTXID {
@@ -330,7 +333,7 @@ func Run(c *common.Ctx) error {
 			obsSeq = append(obsSeq, arrivedAt)
 		}
 		roleN := map[string]int{"primary": 0, "replica": 1, "noprimary": 2}[rc.Role]
-		cf.Add(fmt.Sprintf("(mk_req %s %s %s %s %s %d, %d, %s, %s, %d, %s)", common.CoqBool(isRead), common.CoqBool(rc.Method == "GET"), common.CoqBool(rc.Path == "/litefs/health"),
+		cf.Add(fmt.Sprintf("(mk_req %s %s %s %s %s %d, %d, %s, %s, %d, %s)", common.CoqBool(isRead), common.CoqBool(rc.Method == "GET"), common.CoqBool(strings.SplitN(rc.Path, "?", 2)[0] == "/litefs/health"),
 			common.CoqBool(pass), common.CoqBool(fwd), cookieTXID, roleN, common.CoqBool(rc.DBThere), common.CoqNList(obsSeq), posAfter, common.CoqNList([]uint64{kind, hc, setCookie})), rep)
 		_ = el
 	}
